@@ -441,7 +441,7 @@ pub fn sv_to(s: &v1::SampledValues) -> Value {
 }
 pub fn sampled_con_to(c: &v1::SampledConstraint) -> Value {
     json!({"id": c.id, "eq": eq_to(c.equality), "values": optv(&c.evaluated_values, sv_to),
-        "used": c.used_decision_variable_ids, "name": optstr_to(&c.name), "subs": c.subscripts,
+        "used": vids_to(&c.used_decision_variable_ids), "name": optstr_to(&c.name), "subs": c.subscripts,
         "params": strmap_to(&c.parameters), "desc": optstr_to(&c.description),
         "removed_reason": optstr_to(&c.removed_reason), "rparams": strmap_to(&c.removed_reason_parameters),
         "feasible": boolmap_to(&c.feasible)})
